@@ -17,9 +17,29 @@ pub struct JoinHandle(pub usize);
 
 pub fn spawn<F: Future<Output = ()> + 'static>(f: F) -> JoinHandle {
     if sched::inline() {
-        // see env::sched INLINE: the task lives on this stack frame while the hook drives it
-        let mut p = core::pin::pin!(f);
+        // see env::sched INLINE: the task lives on this stack frame while the hook drives it.
+        // Pinned in place (no `pin!` move: moving a large generator is a memcpy and makes every
+        // captured value opaque to constant propagation).
+        let mut f = f;
+        // SAFETY: `f` is never moved again and is dropped at the end of this frame
+        let mut p = unsafe { Pin::new_unchecked(&mut f) };
         unsafe {
+            if let Some(d) = sched::TASK_DRIVER {
+                let w = sched::noop_waker();
+                let mut cx = Context::from_waker(&w);
+                let mut step = 0u32;
+                let mut done = false;
+                while step < 8 {
+                    if !d(step, done) {
+                        break;
+                    }
+                    if !done {
+                        done = matches!(p.as_mut().poll(&mut cx), Poll::Ready(()));
+                    }
+                    step += 1;
+                }
+                return JoinHandle(usize::MAX);
+            }
             if let Some(h) = sched::TASK_HOOK {
                 let d: Pin<&mut dyn Future<Output = ()>> = p.as_mut();
                 h(d);
@@ -431,6 +451,13 @@ pub mod sync {
                 RecvFut { r: self }
             }
             pub fn model_try_recv(&mut self) -> Option<Result<T, error::RecvError>> {
+                // concrete budget of successful receives per harness: a receive loop whose guard CBMC
+                // cannot fold would otherwise unwind to the global bound (no harness broadcasts more
+                // than a handful of frames; exceeding the budget is a cut path, not a verdict)
+                if crate::env::pool::budget_spent() {
+                    nd::bound_exceeded("broadcast receive budget");
+                    return None;
+                }
                 let multi = crate::env::pool::is_multi();
                 let q = T::pool().bcast.at(self.ix);
                 let cap = q.cap as u64;
@@ -453,6 +480,7 @@ pub mod sync {
                     }
                     self.next = next + 1;
                     q.cursor = next + 1;
+                    crate::env::pool::spend();
                     return out.map(Ok);
                 }
                 None
